@@ -481,6 +481,9 @@ class Engine(object):
         if res == z3.unknown:
             # "not proved" is not "refuted": the next obligation recorded as failing is undecided instead
             self.aux_unknown = 'solver gave up on a clause (%s)' % s.reason_unknown()
+        elif res == z3.sat:
+            # the counterexample of the most recently refuted clause: the inputs a failing obligation is replayed with
+            self.aux_model = self.model_inputs(s.model())
         dt = time.time() - t0
         self.aux_seconds = getattr(self, 'aux_seconds', 0.0) + dt
         self.aux_queries = getattr(self, 'aux_queries', 0) + 1
@@ -491,22 +494,32 @@ class Engine(object):
         ob.seconds += getattr(self, 'aux_seconds', 0.0)
         ob.queries += getattr(self, 'aux_queries', 0)
         self.aux_seconds, self.aux_queries = 0.0, 0
+        return None
+
+    def _take_refutation(self):
+        """(solver give-up, counterexample) recorded by valid() since the last failing obligation."""
         gave_up, self.aux_unknown = getattr(self, 'aux_unknown', None), None
-        return gave_up
+        model, self.aux_model = getattr(self, 'aux_model', None), None
+        return gave_up, model
 
     def prove(self, cond, name, detail=''):
         """Obligation: on the current path, cond holds.  cond may be bool or z3 Bool."""
         ob = self.obligation(name)
         ob.paths += 1
-        gave_up = self._charge_aux(ob)
+        self._charge_aux(ob)
         if is_z3(cond):
             cond = concretize(cond)
         if cond is True:
             ob.merge('discharged')
             return True
-        if cond is False and gave_up:
-            ob.merge('undecided', gave_up)
-            return False
+        if cond is False:
+            gave_up, model = self._take_refutation()
+            if gave_up:
+                ob.merge('undecided', gave_up)
+                return False
+            if model is not None:
+                ob.merge('failed', detail or 'counterexample', model)
+                return False
         t0 = time.time()
         neg = z3.BoolVal(True) if cond is False else z3.Not(cond)
         s = z3.Solver()
@@ -545,10 +558,13 @@ class Engine(object):
     def fail(self, name, why, model=None):
         ob = self.obligation(name)
         ob.paths += 1
-        gave_up = self._charge_aux(ob)
+        self._charge_aux(ob)
+        gave_up, refutation = self._take_refutation()
         if gave_up:
             ob.merge('undecided', '%s: %s' % (gave_up, why))
             return
+        if model is None:
+            model = refutation          # the solver's counterexample of the clause the contract code refuted
         if model is None:
             # the clause fails on this path only if some input reaches the path: an infeasible path proves nothing wrong,
             # and a path condition the solver cannot decide (time limit under load) leaves the obligation undecided
